@@ -139,6 +139,20 @@ func rewrite(path string) ([]byte, int, error) {
 					add(off(s.End()), "; "+callW(src, off, nl))
 					points += 2
 				}
+			case *ast.ExprStmt:
+				// eg.Go(func() error {...}) / wg.Go(func() {...}): a goroutine started through
+				// errgroup or sync.WaitGroup.Go; announced like a go statement. (Should Go
+				// run the literal on the caller's own goroutine, the simulator notices and
+				// takes the announcement back.)
+				if c, ok := s.X.(*ast.CallExpr); ok && len(c.Args) == 1 {
+					if sel, ok := c.Fun.(*ast.SelectorExpr); ok && sel.Sel.Name == "Go" {
+						if fl, ok := c.Args[0].(*ast.FuncLit); ok && fl.Body != nil {
+							add(off(s.Pos()), `vhkYield.Yield("G", nil); `)
+							add(off(fl.Body.Lbrace)+1, ` vhkYield.Yield("g", nil); defer vhkYield.Yield("x", nil); `)
+							points += 3
+						}
+					}
+				}
 			case *ast.IncDecStmt:
 				if nonLocal(s.X) {
 					add(off(s.Pos()), call+"; ")
